@@ -46,6 +46,8 @@ def choices(text):
 
 
 def run(ctx, rep):
+    from ..rules_tz import floor_print
+    floor_print(rep, ctx.prog("Q"))
     prog = ctx.prog("Q")
     rep.notes.append("Does not decide agreement with the C library, week-number arithmetic or the %y pivot.")
     specifier_set(rep, prog)
